@@ -117,9 +117,15 @@ def is_contained_by(c, hit, enc):
     outer, osegs, opts_ = mkclosed(c, 'LLL')
     c.assume(ops.Not(c.py_eq(inner, outer)))
     box = [c.real(n) for n in ('xmin', 'xmax', 'ymin', 'ymax')]
+    # call-site contract of Path.bbox (C08): an ordered box that contains the path it is asked for
+    ibox = [c.real(n) for n in ('ixmin', 'ixmax', 'iymin', 'iymax')]
+    c.assume(ops.And(ops.le(box[0], box[1]), ops.le(box[2], box[3]), ops.le(ibox[0], ibox[1]), ops.le(ibox[2], ibox[3])))
+    for P in ipts:
+        for z in P:
+            c.assume(ops.And(ops.le(ibox[0], ops.re(z)), ops.le(ops.re(z), ibox[1]), ops.le(ibox[2], ops.im(z)), ops.le(ops.im(z), ibox[3])))
     calls = {}
     c.ip.summaries['path.Path.intersect'] = lambda ip, f, a, k: (calls.setdefault('int', (a, k)) and None) or (['X'] if hit else [])
-    c.ip.summaries['path.Path.bbox'] = lambda ip, f, a, k: tuple(box)
+    c.ip.summaries['path.Path.bbox'] = lambda ip, f, a, k: tuple(box) if a[0] is outer else tuple(ibox)
 
     def enc_contract(ip, f, a, k):
         calls['enc'] = a
@@ -128,7 +134,12 @@ def is_contained_by(c, hit, enc):
     r = c.callm(inner, 'is_contained_by', outer)
     start = ipts[0][0]
     in_box = ops.And(ops.le(box[0], ops.re(start)), ops.le(ops.re(start), box[1]), ops.le(box[2], ops.im(start)), ops.le(ops.im(start), box[3]))
-    c.ensures('intersection-test-is-self-vs-other', calls['int'][0][0] is inner and calls['int'][0][1] is outer)
+    if 'int' in calls:
+        c.ensures('intersection-test-is-self-vs-other', calls['int'][0][0] is inner and calls['int'][0][1] is outer)
+    else:
+        # no crossing test at all is acceptable only when containment is impossible anyway
+        c.ensures('crossing-test-skipped-only-when-the-start-is-outside-the-box', ops.And(r is False, ops.Not(in_box)))
+        return
     if hit:
         c.ensures('crossing-paths-are-not-contained', r is False)
         return
@@ -141,3 +152,31 @@ def is_contained_by(c, hit, enc):
         c.ensures('result-is-the-enclosure-test', r is bool(enc))
     else:
         c.ensures('enclosure-test-skipped-only-outside-the-box', ops.Not(in_box))
+
+
+@contract('C14', 'path.Path.is_contained_by', params=[{'_bounded_only': True}])
+def is_contained_by_in_a_rectangle_sampled(c):
+    """bounded stand-in: a polyline against a rectangle (convex, so the polyline is contained
+    iff all its vertices are strictly inside); axis-aligned polylines included"""
+    import svgpathtools.path as sp
+    W, H = 1 + abs(c.real('W')) % 50, 1 + abs(c.real('H')) % 50
+    o = c.cplx('o')
+    rect = sp.Path(sp.Line(o, o + W), sp.Line(o + W, o + W + 1j * H), sp.Line(o + W + 1j * H, o + 1j * H), sp.Line(o + 1j * H, o))
+
+    def vertex(tag):
+        u, v = (abs(c.real(tag + 'u')) % 1.6) - 0.3, (abs(c.real(tag + 'v')) % 1.6) - 0.3
+        return u, v
+    (u0, v0), (u1, v1), (u2, v2) = vertex('a'), vertex('b'), vertex('d')
+    mode = int(abs(c.real('mode')) * 10) % 3
+    if mode == 1:
+        v1 = v2 = v0            # horizontal
+    elif mode == 2:
+        u1 = u2 = u0            # vertical
+    P = [o + W * u + 1j * H * v for (u, v) in ((u0, v0), (u1, v1), (u2, v2))]
+    c.assume(abs(P[0] - P[1]) > 1e-6 and abs(P[1] - P[2]) > 1e-6)
+    margin = 1e-3
+    for (u, v) in ((u0, v0), (u1, v1), (u2, v2)):
+        c.assume(all(abs(x) > margin and abs(x - 1) > margin for x in (u, v)))       # not on the boundary
+    inner = sp.Path(sp.Line(P[0], P[1]), sp.Line(P[1], P[2]))
+    want = all(0 < u < 1 and 0 < v < 1 for (u, v) in ((u0, v0), (u1, v1), (u2, v2)))
+    c.ensures('contained-iff-all-vertices-strictly-inside', inner.is_contained_by(rect) == want)
